@@ -394,27 +394,30 @@ structure Inv (P : Nat) (d : Dec) : Prop where
   slice_eq : d.sliceSize = totalLen d.sliceBuf
   slice_le : d.sliceSize ≤ maxFrameSize
   sum_le   : d.sliceSize + d.fragSize ≤ maxFrameSize + P
+  frag_n   : d.fragments.length ≤ d.fragSize + 1   -- every fragment but the first carries data
+  slice_n  : d.sliceBuf.length ≤ d.sliceSize       -- every buffered slice carries data
 
 /-- nothing of an earlier frame is buffered -/
 def Clean (d : Dec) : Prop := d.sliceBuf = [] ∧ d.sliceSize = 0
 
 instance (d : Dec) : Decidable (Clean d) := by unfold Clean; infer_instance
 
-theorem c08_inv_init (P : Nat) : Inv P {} := ⟨rfl, rfl, by simp, by simp⟩
+theorem c08_inv_init (P : Nat) : Inv P {} := ⟨rfl, rfl, by simp, by simp, by simp, by simp⟩
 
 theorem inv_resetFragments (P : Nat) (d : Dec) (hi : Inv P d) : Inv P d.resetFragments :=
-  ⟨rfl, hi.slice_eq, hi.slice_le, by simp [Dec.resetFragments]; have := hi.slice_le; omega⟩
+  ⟨rfl, hi.slice_eq, hi.slice_le, by simp [Dec.resetFragments]; have := hi.slice_le; omega,
+   by simp [Dec.resetFragments], hi.slice_n⟩
 
 /-- `decodeSlice` preserves the invariant and a returned slice is either the packet's body or a
 joined fragment list within the frame limit -/
 theorem decodeSlice_inv (P : Nat) (d : Dec) (p : Pkt) (hi : Inv P d) (hp : p.payload.length ≤ P) :
     ∀ r, r = decodeSlice d p →
-    Inv P r.1 ∧ ∀ s, r.2 = .ok s → r.1.fragSize = 0 ∧ s.length ≤ P + maxFrameSize := by
+    Inv P r.1 ∧ ∀ s, r.2 = .ok s → r.1.fragSize = 0 ∧ s.length ≤ P + maxFrameSize ∧ 0 < s.length := by
   have hr := inv_resetFragments P d hi
   have herr : ∀ (d' : Dec) (e : SliceErr), Inv P d' →
       Inv P (d', (Except.error e : Except SliceErr Bytes)).1 ∧
       ∀ s, (d', (Except.error e : Except SliceErr Bytes)).2 = .ok s →
-        (d', (Except.error e : Except SliceErr Bytes)).1.fragSize = 0 ∧ s.length ≤ P + maxFrameSize :=
+        (d', (Except.error e : Except SliceErr Bytes)).1.fragSize = 0 ∧ s.length ≤ P + maxFrameSize ∧ 0 < s.length :=
     fun d' e h => ⟨h, fun s hs => by cases hs⟩
   intro r hrd
   rw [decodeSlice] at hrd
@@ -436,15 +439,18 @@ theorem decodeSlice_inv (P : Nat) (d : Dec) (p : Pkt) (hi : Inv P d) (hp : p.pay
   rw [if_neg c4] at hrd
   have hbody : (p.payload.drop 4).length ≤ P := by simp only [List.length_drop]; omega
   by_cases c5 : (p.payload.getD 2 0 >>> 4) &&& 1 = 1 ∧ (p.payload.getD 2 0 >>> 3) &&& 1 = 1
-  · rw [if_pos c5] at hrd; subst hrd
-    refine ⟨hr, ?_⟩
-    intro s hs
-    simp only [Except.ok.injEq] at hs; subst hs
-    exact ⟨rfl, by omega⟩
+  · rw [if_pos c5] at hrd
+    by_cases c5b : (p.payload.drop 4).length = 0
+    · rw [if_pos c5b] at hrd; subst hrd; exact herr _ _ hr
+    · rw [if_neg c5b] at hrd; subst hrd
+      refine ⟨hr, ?_⟩
+      intro s hs
+      simp only [Except.ok.injEq] at hs; subst hs
+      exact ⟨rfl, by omega, by omega⟩
   rw [if_neg c5] at hrd
   by_cases c6 : (p.payload.getD 2 0 >>> 4) &&& 1 = 1
   · rw [if_pos c6] at hrd; subst hrd
-    refine herr _ _ ⟨by simp, hi.slice_eq, hi.slice_le, ?_⟩
+    refine herr _ _ ⟨by simp, hi.slice_eq, hi.slice_le, ?_, by simp, hi.slice_n⟩
     have := hi.slice_le
     simp only; omega
   rw [if_neg c6] at hrd
@@ -454,21 +460,30 @@ theorem decodeSlice_inv (P : Nat) (d : Dec) (p : Pkt) (hi : Inv P d) (hp : p.pay
   by_cases c8 : p.seq ≠ d.nextSeq
   · rw [if_pos c8] at hrd; subst hrd; exact herr _ _ hr
   rw [if_neg c8] at hrd
+  by_cases c8b : (p.payload.drop 4).length = 0
+  · rw [if_pos c8b] at hrd; subst hrd; exact herr _ _ hr
+  rw [if_neg c8b] at hrd
   by_cases c9 : d.sliceSize + (d.fragSize + (p.payload.drop 4).length) > maxFrameSize
   · rw [if_pos c9] at hrd; subst hrd
-    exact herr _ _ ⟨rfl, rfl, by simp, by simp [Dec.resetFragments]⟩
+    exact herr _ _ ⟨rfl, rfl, by simp, by simp [Dec.resetFragments], by simp [Dec.resetFragments], by simp⟩
   rw [if_neg c9] at hrd
   by_cases c10 : (p.payload.getD 2 0 >>> 3) &&& 1 = 1
   · rw [if_pos c10] at hrd; subst hrd
-    refine ⟨⟨rfl, hi.slice_eq, hi.slice_le, by simp [Dec.resetFragments]; have := hi.slice_le; omega⟩, ?_⟩
+    refine ⟨⟨rfl, hi.slice_eq, hi.slice_le, by simp [Dec.resetFragments]; have := hi.slice_le; omega,
+      by simp [Dec.resetFragments], hi.slice_n⟩, ?_⟩
     intro s hs
     simp only [Except.ok.injEq] at hs; subst hs
-    refine ⟨rfl, ?_⟩
-    simp only [joinFragments, List.length_append, List.length_take, List.length_replicate]
-    omega
+    refine ⟨rfl, ?_, ?_⟩
+    · simp only [joinFragments, List.length_append, List.length_take, List.length_replicate]
+      omega
+    · simp only [joinFragments, List.length_append, List.length_take, List.length_replicate]
+      omega
   · rw [if_neg c10] at hrd; subst hrd
-    refine herr _ _ ⟨by simp [hi.frag_eq], hi.slice_eq, hi.slice_le, ?_⟩
-    simp only; omega
+    refine herr _ _ ⟨by simp [hi.frag_eq], hi.slice_eq, hi.slice_le, ?_, ?_, hi.slice_n⟩
+    · simp only; omega
+    · have := hi.frag_n
+      simp only [List.length_append, List.length_cons, List.length_nil]
+      omega
 
 /-- **C08**: the invariant is preserved by `Decode` on EVERY packet. -/
 theorem c08_inv_decode (P : Nat) (d : Dec) (p : Pkt) (hi : Inv P d) (hp : p.payload.length ≤ P) :
@@ -480,15 +495,18 @@ theorem c08_inv_decode (P : Nat) (d : Dec) (p : Pkt) (hi : Inv P d) (hp : p.payl
     simp only [heq] at h1; exact h1
   · rename_i d' s heq
     simp only [heq] at h1 h2
-    obtain ⟨hz, _⟩ := h2 s rfl
+    obtain ⟨hz, _, hpos⟩ := h2 s rfl
     have hclear : Inv P { d' with sliceBuf := [], sliceSize := 0 } :=
-      ⟨h1.frag_eq, rfl, by simp, by simp only [hz]; simp⟩
+      ⟨h1.frag_eq, rfl, by simp, by simp only [hz]; simp, h1.frag_n, by simp⟩
     simp only
     split
     · exact hclear
     split
     · rename_i hle _
-      exact ⟨h1.frag_eq, by simp [h1.slice_eq], by simp only; omega, by simp only [hz]; omega⟩
+      refine ⟨h1.frag_eq, by simp [h1.slice_eq], by simp only; omega, by simp only [hz]; omega, h1.frag_n, ?_⟩
+      have := h1.slice_n
+      simp only [List.length_append, List.length_cons, List.length_nil]
+      omega
     split <;> exact hclear
 
 /-- **C08 bounded memory**: retained bytes ≤ maximum frame size + one packet. -/
@@ -496,6 +514,14 @@ theorem c08_retained_le (P : Nat) (d : Dec) (hi : Inv P d) : retained d ≤ maxF
   unfold retained
   rw [← hi.frag_eq, ← hi.slice_eq, Nat.add_comm]
   exact hi.sum_le
+
+/-- **C08 fragment / slice count**: the lists never hold more entries than bytes (plus one for a
+header-only start fragment) — header-only slices and following fragments are refused since
+ea75fb6 — so the lists themselves, and the packet buffers they pin, obey the same bound. -/
+theorem c08_fragment_count_le (P : Nat) (d : Dec) (hi : Inv P d) :
+    d.fragments.length + d.sliceBuf.length ≤ maxFrameSize + P + 1 := by
+  have := hi.frag_n; have := hi.slice_n; have := hi.sum_le
+  omega
 
 /-- **C08 output bound**: no returned frame exceeds `maxFrameSize`. -/
 theorem c08_out_le (d : Dec) (p : Pkt) (f : Bytes) (h : (decode d p).2 = .ok f) :
@@ -580,6 +606,6 @@ example : ((encode exEnc exFrame).2.map fun ps => ps.map fun p => (p.seq, p.mark
 example : (runDec {} ((encode exEnc exFrame).2.getD [])).2 = [.more, .more, .more, .ok exFrame] := by decide
 /-- a dirty state satisfies the invariant -/
 example : Inv 1500 { fragments := [[1, 2], [3]], fragSize := 3, nextSeq := 9, sliceBuf := [[0, 0, 1, 5]], sliceSize := 4 } :=
-  ⟨by decide, by decide, by decide, by decide⟩
+  ⟨by decide, by decide, by decide, by decide, by decide, by decide⟩
 
 end Rtsp.Codec.Mpeg1Video
